@@ -98,13 +98,25 @@ def _clean(log):
     return "\n".join(out)
 
 
-def _prune_old_builds(max_age_s=6 * 3600):
-    """goto binaries of earlier harness sets pile up under the shared Kani target dir: drop stale ones"""
+def _prune_old_builds(max_age_s=36 * 3600):
+    """goto binaries of earlier harness sets pile up under the shared Kani target dir: drop stale ones.  A build dir is
+    reused (same scratch path => same crate hash) and its own mtime does not change when files below it do, so the age is
+    taken from the newest entry of its out/ directory; anything touched within the last 36 h is left alone (another check
+    may be using it right now)."""
     import glob, shutil
     now = time.time()
     for d in glob.glob(os.path.join(TARGET, "kani", "*", "debug", "build", "dust_dds", "*")):
         try:
-            if now - os.path.getmtime(d) > max_age_s:
+            newest = os.path.getmtime(d)
+            out = os.path.join(d, "out")
+            if os.path.isdir(out):
+                newest = max(newest, os.path.getmtime(out))
+                with os.scandir(out) as it:
+                    for i, e in enumerate(it):
+                        newest = max(newest, e.stat().st_mtime)
+                        if i > 200:
+                            break
+            if now - newest > max_age_s:
                 shutil.rmtree(d, ignore_errors=True)
         except OSError:
             pass
